@@ -3,6 +3,12 @@ import os, json
 from . import lib
 
 LEVEL = "model_checking"
+MANIFEST = dict(
+    design='DESIGN.md §4 C11',
+    technique='TLA+ operator semantics (I32/F32/ExprSem) enumerated by TLC, every case replayed into the real const folder / const evaluator / lowering (spec -> impl replay)',
+    text='TLC enumerates every operator over boundary operands with the value the TLA+ transcription of the documented machine semantics assigns (in-model: algebraic sanity of the transcription, closure, definedness), and every enumerated case is replayed into three real code paths (const_simplify, evaluate_const_vars, lowering of named vs inline constants). Exhaustive over the enumerated domain; the spec is a third, independent implementation of the operator table.',
+    note='Trusted: TLC, CommunityModules Json, the harness renderer (JSON -> source text). Float results outside the exact (dyadic) envelope are not decided; && and || compared by truthiness.',
+)
 
 
 def same_value(exp, obs, truthiness=False):
